@@ -1720,9 +1720,12 @@ def run_families(families, n, seed, asan=False):
                           "samples": [c.line[:400] for c in cases[::max(1, len(cases) // 5)][:6]]}
     res = nrun.run_cases(["%s %s" % (c.id, c.line) for c in cases], asan=asan)
     out = {f: [0, []] for f in families}
+    run_families.ok_counts = {}
     for c in cases:
         r = res[c.id]
         out[c.family][0] += 1
+        if r.status == "OK":
+            run_families.ok_counts[c.family] = run_families.ok_counts.get(c.family, 0) + 1
         if r.status == "DRIVER":
             why = ("driver", "driver error: %s" % r.msg)
         elif r.status in ("CRASH", "TIMEOUT"):
@@ -1781,6 +1784,8 @@ def engine(pid, tier, seed, known, families=None):
                                "cases": ncases, "mismatch": bool(fails)})
         if ncases == 0:
             out["errors"].append("Engine N family %s generated no cases" % f)
+        if results[f][0] and not run_families.ok_counts.get(f) and f != "builder_malformed":
+            out["errors"].append("vacuous: Engine N family %s: the library answered none of its %d cases" % (f, ncases))
         fails.sort(key=lambda x: len(x[0].line))
         for seen, (c, why, r) in enumerate(fails[:3]):
             oid = "N.%s#%d" % (f, seen)
